@@ -112,11 +112,13 @@ func (r *runner) runSession(s session) M {
 	cr := compresult.Type{CS: &cs, DS: &ds, Dbg: &dbg}
 	builtin.Load(cr)
 	virtM := vm.New(m, cr)
+	memory.VerifMinStack = 0
 	if s.Pregrow > 0 {
 		for i := 0; i < s.Pregrow; i++ {
 			m.Push(value.Nil)
 		}
 		m.ResetSP()
+		memory.VerifMinStack = s.Pregrow // iterator contexts get stacks that never reallocate either
 	}
 
 	r.inFile.Truncate(0)
@@ -246,6 +248,7 @@ func (r *runner) runSession(s session) M {
 	}
 	vm.VerifStep = nil
 	lexer.VerifTick = nil
+	memory.VerifMinStack = 0
 	out := M{"id": s.ID, "res": res}
 	if s.WantBC {
 		out["bc"] = dumpBC(cs, ds)
